@@ -3,6 +3,7 @@ import Thanos.Model.Frames
 import Thanos.Model.StoreSpec
 import Thanos.Lemmas.Labels
 import Thanos.Lemmas.Frames
+import Thanos.Lemmas.FramesBudget
 import Thanos.Generated.Facts
 /-
   C08 — Stores present external labels consistently.
@@ -317,6 +318,18 @@ theorem splitFrames_nonempty (maxBytes : Int) (labelSizes : List Int) (chunks : 
 theorem splitFrames_nil_iff (maxBytes : Int) (labelSizes : List Int) (chunks : List Chunk) :
     splitFrames maxBytes labelSizes chunks = [] ↔ chunks = [] :=
   splitLoop_nil_iff _ chunks _ []
+
+/-- "minor inaccuracy … max of full chunk size": without its last chunk a frame is empty or strictly below the
+    budget, so a frame exceeds `maxBytesPerFrame − labels` by at most its last chunk (every budget, also ≤ 0) -/
+theorem splitFrames_overshoot (maxBytes : Int) (labelSizes : List Int) (chunks : List Chunk) :
+    ∀ f ∈ splitFrames maxBytes labelSizes chunks, ∃ init last, f = init ++ [last] ∧
+      (init = [] ∨ bytes init < budgetOf maxBytes labelSizes) :=
+  splitLoop_overshoot _ chunks _ [] (by simp [bytes]) (by intro h; exact absurd rfl h)
+
+/-- every frame but the last one is full -/
+theorem splitFrames_full (maxBytes : Int) (labelSizes : List Int) (chunks : List Chunk) :
+    ∀ f ∈ (splitFrames maxBytes labelSizes chunks).dropLast, bytes f ≥ budgetOf maxBytes labelSizes :=
+  splitLoop_full _ chunks _ [] (by simp [bytes])
 
 end Thanos.Frames
 
